@@ -430,6 +430,18 @@ fn c13_wire(seed: u64, rep: &Report) -> Result<(), String> {
         let q = rng.pick(&["'", ""]).to_string();
         let semi = if rng.chance(1, 3) { ";" } else { "" };
         match rng.below(9) {
+            0 if rng.chance(1, 4) => {
+                // a shard the pool does not have: refused, and the session stays where it was
+                let s = n + rng.below(4) as usize;
+                let sql = format!("{} {}{}{}{}", case(&mut rng, "set shard to"), q, s, q, semi);
+                let r = c.query(&sql, 5000).map_err(|e| format!("{:?}", e.1))?;
+                rep.count("wire_commands", 1);
+                rep.count("wire_refused_set_shard", 1);
+                if first_error(&r).is_none() {
+                    rep.violation("C13|set_shard_to_unconfigured_shard_accepted", &format!("`{}` with {} shards answered {}", sql, n, summarize(&r)), json!({"seed": seed}));
+                }
+                // `shard` (the reference state) is deliberately left unchanged
+            }
             0 => {
                 let s = rng.below(n as u64) as usize;
                 let sql = format!("{} {}{}{}{}", case(&mut rng, "set shard to"), q, s, q, semi);
